@@ -33,6 +33,8 @@ type SV struct {
 	Sub []*SV
 	// Fn: statically known function of a func value.
 	Fn *ssa.Function
+	// Boxed: payload of an interface value built by MakeInterface in this VC.
+	Boxed *SV
 	// For values built by contract expressions without a Go type.
 	Untyped *big.Int // untyped integer constant
 	Sort    Sort     // scalar sort when T == nil
